@@ -291,9 +291,31 @@ class Check:
     def validate(self, trace_path, module, cfg=None, max_rejects=25, timeout=1800, deque=False):
         """Leg (C): TLC accepts or rejects the recorded executions.  Returns the list of rejected
         trace ids with the line that could not be explained; accepted traces are counted."""
-        lines = [(json.loads(l)["tr"], l) for l in open(trace_path).read().splitlines() if l.strip()]
+        # read trace by trace and validate in chunks of at most CHUNK lines: TLC holds the whole deserialized trace in memory
+        CHUNK = 250000
         rejected = []
-        total = len({t for t, _ in lines})
+        total = 0
+        chunk, cur_tr = [], None
+        with open(trace_path) as fh:
+            for raw in fh:
+                l = raw.rstrip("\n")
+                if not l.strip():
+                    continue
+                tr = json.loads(l)["tr"]
+                if tr != cur_tr:
+                    total += 1
+                    if len(chunk) >= CHUNK and len(rejected) < max_rejects:
+                        self._validate_chunk(chunk, module, cfg, max_rejects, timeout, deque, rejected)
+                        chunk = []
+                    cur_tr = tr
+                if len(rejected) < max_rejects:
+                    chunk.append((tr, l))
+        if chunk and len(rejected) < max_rejects:
+            self._validate_chunk(chunk, module, cfg, max_rejects, timeout, deque, rejected)
+        self.cov["traces_validated_against_impl"] += total - len(rejected)
+        return rejected
+
+    def _validate_chunk(self, lines, module, cfg, max_rejects, timeout, deque, rejected):
         while lines:
             data = "\n".join(l for _, l in lines) + "\n"
             r = self.tlc(module, cfg or module, workers=1, timeout=timeout,
@@ -323,8 +345,6 @@ class Check:
             lines = lines[last + 1:]
             if len(rejected) >= max_rejects:
                 break
-        self.cov["traces_validated_against_impl"] += total - len(rejected)
-        return rejected
 
     # ---------------------------------------------------------------- verdicts
     def report(self, signature, replay_obj, what):
